@@ -21,6 +21,7 @@ UNITS_DIR = os.path.join(VERIF, 'units')
 EVID = os.path.join(VERIF, 'evidence')
 KNOWN = os.path.join(VERIF, 'known_findings.json')
 
+DEFAULT_REPLACE = ['zck_hash_name_from_type', 'zck_comp_name_from_type']
 BASE_CHECKS = ['--bounds-check', '--pointer-check', '--div-by-zero-check',
                '--signed-overflow-check', '--undefined-shift-check',
                '--pointer-primitive-check']
@@ -79,6 +80,13 @@ def prepare_scratch(unit, scratch):
     m = re.search(r"version\s*:\s*'([^']+)'", open(os.path.join(REPO, 'meson.build')).read())
     open(os.path.join(scratch, 'zck.h'), 'w').write(src.replace('@version@', m.group(1) if m else '0'))
     diffs = []
+    # mechanically extracted functions (verbatim text of the real definitions)
+    for ex in unit.get('extract', []):
+        text = open(os.path.join(REPO, ex['file'])).read()
+        body = looppatch.extract_functions(text, ex['functions'], ex['file'])
+        hdr = '/* extracted verbatim on this run from %s: %s (everything else of that file is dropped) */\n' % (
+            ex['file'], ', '.join(ex['functions']))
+        open(os.path.join(scratch, ex['as']), 'w').write(hdr + body)
     byfile = {}
     for e in unit.get('loop_contracts', []):
         byfile.setdefault(e['file'], []).append(e)
@@ -122,7 +130,15 @@ def instrument(unit, scratch, gb, cover=False):
     cmd = ['goto-instrument', '--dfcc', unit['harness']]
     for f in ([unit['enforce']] if isinstance(unit.get('enforce'), str) else unit.get('enforce', [])):
         cmd += ['--enforce-contract', f]
-    for g in unit.get('replace', []):
+    repl = list(unit.get('replace', []))
+    # name-rendering helpers reached through logging arguments: always by contract when present
+    rc0, symtxt, _ = run(['goto-instrument', '--show-symbol-table', gb], scratch, 120)
+    enf = [unit['enforce']] if isinstance(unit.get('enforce'), str) else unit.get('enforce', [])
+    for g in DEFAULT_REPLACE:
+        if g not in repl and g not in enf and re.search(r'^Symbol\.*: ' + g + r'$', symtxt, flags=re.M):
+            repl.append(g)
+    unit['_replace_effective'] = repl
+    for g in repl:
         cmd += ['--replace-call-with-contract', g]
     if unit.get('apply_loop_contracts') or unit.get('loop_contracts'):
         cmd.append('--apply-loop-contracts')
@@ -267,7 +283,7 @@ def obligation_record(unit, r):
             tag = tags[k - 1]
     if cls == 'precondition':
         mm = re.search(r'contract::(\w+)', desc)
-        tag = 'requires-of-' + (mm.group(1) if mm else '?')
+        tag = ('requires-of-' + mm.group(1)) if mm else None
     if cls == 'assertion':
         tag = desc.strip()
     fnn = fn.replace('_wrapped_for_contract_checking', '')
@@ -313,7 +329,10 @@ def run_unit(unit, tier, keep=False, verbose=False):
             res['status'] = 'UNDECIDED'
             res['why'] = 'goto-cc failed: ' + txt[-1500:]
             return res
-        gb2, txt, icmd = instrument(unit, scratch, gb)
+        if unit.get('dfcc', True):
+            gb2, txt, icmd = instrument(unit, scratch, gb)
+        else:
+            gb2, txt, icmd = gb, 'plain cbmc unit (no contract instrumentation): real bodies executed symbolically', ['(no goto-instrument: plain unit)']
         res['cmds'].append(' '.join(icmd))
         if not gb2:
             res['status'] = 'UNDECIDED'
@@ -338,6 +357,8 @@ def run_unit(unit, tier, keep=False, verbose=False):
                '--object-bits', str(unit.get('object_bits', 12))]
         if uws:
             cmd += ['--unwindset', ','.join(uws)]
+        if not unit.get('dfcc', True):
+            cmd += ['--drop-unused-functions']
         solver = unit.get('solver')
         if tier == 'thorough' and unit.get('solver_thorough'):
             solver = unit['solver_thorough']
@@ -366,6 +387,11 @@ def run_unit(unit, tier, keep=False, verbose=False):
             return res
         results, msgs, solver_s, status = parse_cbmc_json(outp)
         res['solver_s'] = solver_s
+        nb = re.findall(r'no body for function (\w+)', msgs)
+        nb = [f for f in nb if f not in unit.get('allow_no_body', [])]
+        if nb:
+            res['status'] = 'UNDECIDED'
+            res['why'] = 'functions without body would be treated as nondet: %s' % sorted(set(nb))
         if 'ignoring' in msgs:
             res['status'] = 'UNDECIDED'
             res['why'] = 'cbmc dropped a quantifier ("ignoring")'
@@ -418,7 +444,10 @@ def run_cover(unit, scratch, uws, timeout, mem):
     gb, txt = compile_unit(unit, scratch, cover=True)
     if not gb:
         return {'status': 'UNDECIDED', 'why': 'cover build failed: ' + txt[-800:], 'covers': []}
-    gb2, txt, _ = instrument(unit, scratch, gb, cover=True)
+    if unit.get('dfcc', True):
+        gb2, txt, _ = instrument(unit, scratch, gb, cover=True)
+    else:
+        gb2, txt = gb, ''
     if not gb2:
         return {'status': 'UNDECIDED', 'why': 'cover instrument failed: ' + txt[-800:], 'covers': []}
     cmd = ['cbmc', gb2, '--unwind', str(unit.get('unwind', 70)),
@@ -433,7 +462,8 @@ def run_cover(unit, scratch, uws, timeout, mem):
     results, msgs, _, _ = parse_cbmc_json(outp)
     if results is None:
         return {'status': 'UNDECIDED', 'why': 'cover run produced no result: ' + msgs[-500:], 'covers': []}
-    goals = [r for r in results if r.get('description', '').startswith('COVER ')]
+    goals = [r for r in results if r.get('description', '').startswith('COVER ')
+             and r.get('sourceLocation', {}).get('function') == unit['harness']]
     if not goals:
         return {'status': 'UNDECIDED', 'why': 'no cover goals in harness (vacuity guard missing)', 'covers': []}
     for g in goals:
@@ -545,7 +575,7 @@ def native_replay(unit, ob, outdir):
         return False, 'no native replay for this unit (stub/ghost unit or no input record in trace)'
     scratch = tempfile.mkdtemp(prefix='zreplay.')
     try:
-        prepare_scratch({'loop_contracts': []}, scratch)
+        prepare_scratch({'loop_contracts': [], 'extract': unit.get('extract', [])}, scratch)
         lines = ['/* counterexample inputs extracted from the CBMC trace of %s */' % ob['name']]
         unit_text = open(os.path.join(VERIF, unit['file'])).read()
         alltypes = re.findall(r'^V_INPUT\((\w+)\)', unit_text, flags=re.M)
@@ -569,7 +599,19 @@ def native_replay(unit, ob, outdir):
               ['-I' + scratch, '-I' + VERIF, '-I' + REPO, '-I' + os.path.join(REPO, 'src/lib')]
         for d in unit.get('defines', []):
             cmd.append('-D' + d)
-        cmd += [os.path.join(scratch, 'main.c'), '-o', exe] + rp.get('link', [])
+        cmd += [os.path.join(scratch, 'main.c'), '-o', exe]
+        if rp.get('link_rest', True):
+            # the rest of the real library, built from /repo's working tree (bundled SHA, zstd on)
+            included = set(re.findall(r'#include "(src/lib/[^"]+\.c)"', unit_text))
+            for root, _, files in os.walk(os.path.join(REPO, 'src/lib')):
+                if '/win32' in root or '/openssl' in root:
+                    continue
+                for fn in files:
+                    rel = os.path.relpath(os.path.join(root, fn), REPO)
+                    if fn.endswith('.c') and rel not in included:
+                        cmd.append(os.path.join(root, fn))
+            cmd += ['-lzstd']
+        cmd += rp.get('link', [])
         rc, txt, _ = run(cmd, scratch, 300)
         if rc != 0:
             return False, 'native replay build failed:\n' + txt[-3000:] + '\n--- inputs ---\n' + hdr
@@ -599,20 +641,27 @@ def write_replay_file(pid, unit, ob, tier):
         f.write('verifier verdict: %s\n' % ob['status'])
         f.write('replay against real code: %s\n\n' % ('REPRODUCED' if reproduced else 'no-failing-input-found'))
         f.write(text + '\n')
-        f.write('--- verifier trace (assignments in harness and function under contract) ---\n')
+        f.write('--- verifier trace (scalar assignments, failures; capped at 400 lines) ---\n')
+        nlines = 0
         for st in (ob.get('trace') or []):
-            if st.get('stepType') in ('assignment', 'failure', 'function-call', 'function-return'):
-                sl = st.get('sourceLocation', {})
-                if st.get('hidden'):
+            if nlines >= 400:
+                f.write('  ... (trace truncated)\n')
+                break
+            if st.get('hidden') or st.get('internal'):
+                continue
+            sl = st.get('sourceLocation', {})
+            if st.get('stepType') == 'assignment':
+                v = st.get('value', {})
+                if not isinstance(v, dict) or 'members' in v or 'elements' in v:
                     continue
-                if st['stepType'] == 'assignment':
-                    v = st.get('value', {})
-                    d = v.get('data') if isinstance(v, dict) else None
-                    if d is None:
-                        d = json_value_to_c(v) if isinstance(v, dict) else ''
-                    f.write('  %s:%s %s = %s\n' % (sl.get('function', ''), sl.get('line', ''), st.get('lhs'), str(d)[:300]))
-                elif st['stepType'] == 'failure':
-                    f.write('  FAILURE %s:%s %s\n' % (sl.get('function', ''), sl.get('line', ''), st.get('reason')))
+                lhs = st.get('lhs', '')
+                if lhs.startswith('return_value_nondet') or lhs.startswith('__dfcc') or '__CPROVER' in lhs:
+                    continue
+                f.write('  %s:%s %s = %s\n' % (sl.get('function', ''), sl.get('line', ''), lhs, str(v.get('data'))[:200]))
+                nlines += 1
+            elif st.get('stepType') == 'failure':
+                f.write('  FAILURE %s:%s %s\n' % (sl.get('function', ''), sl.get('line', ''), st.get('reason')))
+                nlines += 1
     return path, reproduced
 
 
@@ -640,6 +689,8 @@ def assumption_scan(unit):
         out.append('BOUNDED unit %s: %s' % (unit['name'], unit.get('bound', '')))
     for d in unit.get('defines', []):
         out.append('define for this unit: -D%s' % d)
+    for ex in unit.get('extract', []):
+        out.append('functions %s extracted verbatim from %s on every run (rest of the file not in this unit)' % (','.join(ex['functions']), ex['file']))
     for c in unit.get('drop_checks', []):
         out.append('check class disabled in %s: %s' % (unit['name'], c))
     return out
